@@ -968,6 +968,9 @@ def shape_target_role_change():
     rebuild asks for that path as its target: the target is judged by the plan as it is now."""
     return {
         "name": "target_role_change",
+        # (excluded from the relational checks like the schedule-dependent shapes: after the edit a step
+        # overwrites what used to be a source file, so "the final sources" are not what a scratch build gets)
+        "schedule_dependent": True,
         "sources": {"plan.py": ["v1", "v2"], "data.txt": ["a"], "s1.txt": ["a", "b"]},
         "scripts": {
             "./plan.py": {
